@@ -58,11 +58,13 @@ func run(in Sx) Sx {
 				default:
 				}
 				w := decoyWords[i%len(decoyWords)]
-				d2.AddWord(w)
-				d2.Filter("xab世c" + w)
-				if i%3 == 0 {
-					d2.Remove(w)
-				}
+				Catch(func() { // the decoy must never take the harness down
+					d2.AddWord(w)
+					d2.Filter("xab世c" + w)
+					if i%3 == 0 {
+						d2.Remove(w)
+					}
+				})
 			}
 		}()
 	}
@@ -450,6 +452,9 @@ func genPhases(rng *Rng, out *Out, n int) {
 			ops = append(ops, List(Int(code(1)), sxRunes(pool[i])))
 		}
 		observe()
+		if h%3 == 0 { // refill after a Reset
+			ops = append(ops, List(Int(2)))
+		}
 		for _, i := range perm() {
 			ops = append(ops, List(Int(code(0)), sxRunes(pool[i])))
 		}
